@@ -719,6 +719,93 @@ def r5(ctx):
         ctx.bad(idf.qualname, 'no-raise', 'identify_format may return None silently', idf.loc())
 
 
+def r5b(ctx):
+    """format inference is asked about the right things: at the identify_format call in RegionsRegistry.read/write the
+    destination path, the region class and the method name reach the roles the identifier functions give their
+    parameters (roles are read from the identifiers, the registered readers/writers and identify_format itself)."""
+    m = ctx.model
+    reg = m.cls('RegionsRegistry')
+    idf = m.method(reg, 'identify_format')
+    ctx.need(idf is not None, 'RegionsRegistry.identify_format', 'missing')
+    idents = [(k, f) for k, f in m.registry.items() if k[1] == 'identify']
+    ctx.need(len(idents) >= 3, 'registry', 'fewer than three identifier functions registered')
+    roles = set()
+    for k, f in idents:
+        ps = [a.arg for a in f.node.args.args]
+        ctx.need(len(ps) == 2, f.qualname, 'identifier does not take (method, path)')
+        meth = {n.left.id for n in ast.walk(f.node) if isinstance(n, ast.Compare) and isinstance(n.left, ast.Name)
+                and n.left.id in ps and any(isinstance(c, ast.Constant) and c.value in ('read', 'write') for c in n.comparators)}
+        ctx.need(len(meth) == 1, f.qualname, 'method-name parameter of the identifier not recognised')
+        roles.add(ps.index(meth.pop()))
+    ctx.need(len(roles) == 1, 'registry', 'identifier functions disagree on their parameter order')
+    mi = roles.pop()
+    pi = 1 - mi
+    iparams = [a.arg for a in idf.node.args.args if a.arg != 'cls']
+    role = {}
+    def _is_lookup(e):
+        return isinstance(e, ast.Subscript) and (dotted(e.value) or '').endswith('registry')
+    idf_looked = {t.id for st in ast.walk(idf.node) if isinstance(st, ast.Assign) and _is_lookup(st.value)
+                  for t in st.targets if isinstance(t, ast.Name)}
+    for c in calls_in(idf.node):
+        if (_is_lookup(c.func) or (isinstance(c.func, ast.Name) and c.func.id in idf_looked)) and len(c.args) == 2:
+            for idx, r in ((mi, 'method'), (pi, 'path')):
+                if isinstance(c.args[idx], ast.Name) and c.args[idx].id in iparams:
+                    role[r] = c.args[idx].id
+        elif (call_name(c) or '').endswith('get_identifiers') and c.args and isinstance(c.args[0], ast.Name):
+            role['class'] = c.args[0].id
+    if not (len(role) == 3 and len(set(role.values())) == 3):
+        ctx.bad(idf.qualname, 'identifier-arguments',
+                f'identify_format hands its parameters to the identifier functions as {role}: the identifiers take '
+                f'(method name, path) at positions ({mi}, {pi}) and get_identifiers takes the class', idf.loc())
+    else:
+        ctx.ok(idf.qualname, f'identifier(method={role["method"]}, path={role["path"]}); identifiers of {role["class"]}')
+    for name, path_idx in (('read', 0), ('write', 1)):
+        fi = m.method(reg, name)
+        fn = fi.node
+        construct = f'RegionsRegistry.{name}: identify_format call'
+        call = next((c for c in calls_in(fn) if (call_name(c) or '').endswith('identify_format')), None)
+        if call is None or len(role) != 3:
+            ctx.need(call is not None, construct, 'no identify_format call')
+            continue
+        bound = {}
+        for p_, a in zip(iparams, call.args):
+            bound[p_] = a
+        for kw in call.keywords:
+            bound[kw.arg] = kw.value
+        # the class of the registry key: the name that precedes the constant method name in the key tuple, or in the call
+        # of the helper that builds the key
+        key_cls = None
+        for t in ast.walk(fn):
+            elts = t.elts if isinstance(t, ast.Tuple) else (t.args if isinstance(t, ast.Call) and t is not call else None)
+            if elts is None:
+                continue
+            for a, b in zip(elts, elts[1:]):
+                if isinstance(b, ast.Constant) and b.value == name and isinstance(a, ast.Name) and key_cls is None:
+                    key_cls = a.id
+        # the dispatch: the call of a local variable (the looked-up reader/writer)
+        params = {a.arg for a in fn.args.args}
+        local = {t.id for st in ast.walk(fn) if isinstance(st, ast.Assign) for t in st.targets if isinstance(t, ast.Name)} - params
+        disp = next((c for c in calls_in(fn) if isinstance(c.func, ast.Name) and c.func.id in local), None)
+        ctx.need(key_cls is not None and disp is not None and len(disp.args) > path_idx
+                 and isinstance(disp.args[path_idx], ast.Name), construct, 'registry key or dispatch call not recognised')
+        path_name = disp.args[path_idx].id
+        probs = []
+        a = bound.get(role['method'])
+        if not (isinstance(a, ast.Constant) and a.value == name):
+            probs.append(f'the method name asked about is `{norm(a) if a is not None else None}`, not {name!r}')
+        a = bound.get(role['class'])
+        if not (isinstance(a, ast.Name) and a.id == key_cls):
+            probs.append(f'the class asked about is `{norm(a) if a is not None else None}`, the registry key uses `{key_cls}`')
+        a = bound.get(role['path'])
+        if not (isinstance(a, ast.Name) and a.id == path_name):
+            probs.append(f'the path asked about is `{norm(a) if a is not None else None}`, the {name}r is given `{path_name}`')
+        if probs:
+            ctx.bad(construct, 'inference-arguments', '; '.join(probs) + ': the format of a file written/read without '
+                    'format= is inferred from the wrong object', fi.loc())
+        else:
+            ctx.ok(construct, f'path `{path_name}`, class `{key_cls}`, method {name!r}')
+
+
 def r6(ctx):
     """reading has no memory: the functions on the read/write/identify paths (registry, connect, io) write no
     module- or class-level object (rule C13.R2 restricted to them) — a remembered format or template would make a later
@@ -738,5 +825,6 @@ RULES = [
     RuleDef('R4b', 'identifier semantics (symbolic): write/read/other-method outcomes', r4b, 3),
     RuleDef('R4c', 'FITS table is written under the extension name the reader looks for', r4c, 1),
     RuleDef('R5', 'registry raises IORegistryError for unknown/unidentified formats; identifier selection', r5, 7),
+    RuleDef('R5b', 'format inference is asked with (path, class, method) in the identifiers\' roles', r5b, 3),
     RuleDef('R6', 'identification and I/O keep no state between calls (C13.R2 on registry/io)', r6, 1),
 ]
